@@ -84,7 +84,7 @@ func Profiles() map[string]*Profile {
 		AuditMode: "visit", MaxStores: 1, AllowMem: true, MemOnlyP: 0.08, MinOps: 6, MaxOps: 60, LongRunP: 0.02, LongOps: 400,
 		MaxColls: 3, MaxKeys: 16, CBChoices: allCB, CustomCmp: true, AdvValues: true, CheckDecode: true, PrioModes: []int{0, 1, 4}})
 	add(&Profile{Name: "C09", Weights: mergeW(mergeW(baseWeights(), snapW), map[string]float64{"visit": 2, "iter": 1, "len": 0.5, "blockvisit": 0.3, "randvisit": 0.3, "write": 0.5, "revert": 0.8,
-		"copyto": 0.4, "setcoll": 0.3, "rmcoll": 0.3, "names": 0.3, "flush": 4, "reopen": 1.5, "close": 0.1}),
+		"copyto": 0.4, "setcoll": 0.3, "rmcoll": 0.3, "names": 0.3, "flush": 4, "reopen": 1.5, "close": 0.1, "faultyrevert": 0.5, "faultyflush": 0.4}),
 		Judge:     []string{"open", "reopen"},
 		AuditMode: "visit", MaxStores: 2, AllowMem: false, MinOps: 10, MaxOps: 80, LongRunP: 0.03, LongOps: 600,
 		MaxColls: 3, MaxKeys: 24, CBChoices: allCB, CustomCmp: true, Nested: true, CheckWrites: true, ROHandleP: 0.2, AdvValues: true, PrioModes: []int{0, 1, 4}})
@@ -108,7 +108,7 @@ func Profiles() map[string]*Profile {
 		Judge:     []string{"flush", "copyto", "open", "reopen"},
 		AuditMode: "visit", MaxStores: 1, MinOps: 8, MaxOps: 70, LongRunP: 0.03, LongOps: 600,
 		MaxColls: 5, MaxKeys: 30, CBChoices: allCB, CustomCmp: true, BigValues: true, CheckDecode: true, CheckStruct: true, PrioModes: []int{0, 1, 2, 3, 4}})
-	add(&Profile{Name: "C15", Weights: mergeW(mergeW(baseWeights(), snapW), map[string]float64{"visit": 3, "iter": 1, "len": 1, "blockvisit": 0.5, "randvisit": 0.5, "setcoll": 0.3, "rmcoll": 0.4, "close": 0.2, "evict": 3, "snapwrite": 0, "snaprevert": 0.2, "copyto": 0.2}),
+	add(&Profile{Name: "C15", Weights: mergeW(mergeW(baseWeights(), snapW), map[string]float64{"reopen": 1.2, "visit": 3, "iter": 1, "len": 1, "blockvisit": 0.5, "randvisit": 0.5, "setcoll": 0.3, "rmcoll": 0.4, "close": 0.2, "evict": 3, "snapwrite": 0, "snaprevert": 0.2, "copyto": 0.2}),
 		Judge:     []string{},
 		AuditMode: "visit", MaxStores: 2, AllowMem: true, MinOps: 6, MaxOps: 60, LongRunP: 0.02, LongOps: 400,
 		MaxColls: 3, MaxKeys: 20, CBChoices: []int{CBRef, CBAlloc | CBRef, CBAll, CBAlloc | CBRef | CBAfterRead | CBBeforeWrite}, CustomCmp: true, Nested: true,
@@ -117,7 +117,7 @@ func Profiles() map[string]*Profile {
 		Judge:     []string{"iter", "visit"},
 		AuditMode: "visit", MaxStores: 1, AllowMem: true, MemOnlyP: 0.3, MinOps: 6, MaxOps: 50, LongRunP: 0.02, LongOps: 300,
 		MaxColls: 2, MaxKeys: 30, CBChoices: []int{0, 0, CBAll}, CustomCmp: true, Nested: true, PrioModes: []int{0, 1, 4}})
-	add(&Profile{Name: "C19", Weights: mergeW(baseWeights(), map[string]float64{"visit": 4, "iter": 1, "len": 1, "blockvisit": 0.5, "evict": 5, "flush": 4, "reopen": 3, "audit": 0.1, "get": 1, "snapshot": 0.3, "snapclose": 0.2}),
+	add(&Profile{Name: "C19", Weights: mergeW(baseWeights(), map[string]float64{"setcoll": 0.5, "rmcoll": 0.5, "visit": 4, "iter": 1, "len": 1, "blockvisit": 0.5, "evict": 5, "flush": 4, "reopen": 3, "audit": 0.1, "get": 1, "snapshot": 0.3, "snapclose": 0.2}),
 		Judge:     []string{},
 		AuditMode: "visit", MaxStores: 1, MinOps: 10, MaxOps: 80, LongRunP: 0.03, LongOps: 500,
 		MaxColls: 3, MaxKeys: 30, CBChoices: []int{0, 0, CBAlloc, CBAfterRead | CBBeforeWrite, CBKeyCompare}, CustomCmp: true, CheckReads: true, PrioModes: []int{0, 1, 4}})
@@ -731,6 +731,14 @@ func (g *Gen) build(kind string) (Op, bool) {
 				op = Op{Kind: "getitem", S: h.ID, C: name, Key: g.pickKey(cc, mc, 0.8), WV: r.Bool(0.5), Faults: []Fault{f}}
 			}
 			return op, true
+		}
+	case "faultyrevert":
+		// FlushRevert hit by one read fault, then the re-open the failed call requires
+		for _, h := range g.permuted(g.writable()) {
+			if h.Disk >= 0 && h.SizeKnown && !g.w.Files[h.Disk].Opaque {
+				g.queue = append(g.queue, Op{Kind: "reopen", S: h.ID, CB: g.cb})
+				return Op{Kind: "revert", S: h.ID, Faults: []Fault{{Disk: h.Disk, Kind: FReadErr, K: r.Range(1, 60)}}}, true
+			}
 		}
 	case "faultymut":
 		// a mutation hit by one read fault (only reaches the file when the
